@@ -13,11 +13,15 @@ sys.path.insert(0, str(Path(__file__).resolve().parent.parent))
 
 from harness.common import Report  # noqa: E402
 
-LEVELS = {
-    "C06": "proof",
-    "C01": "proof", "C02": "proof", "C03": "proof", "C18": "proof", "C08": "proof", "C09": "proof", "C10": "proof", "C14": "proof", "C05": "proof",
-    "C16": "translation_validation",
-}
+def manifest_level(pid):
+    try:
+        m = json.loads((Path(__file__).resolve().parent.parent / "MANIFEST.json").read_text())
+        for c in m["checks"]:
+            if c["property_id"] == pid:
+                return c["level_claimed"]["category"]
+    except Exception:  # noqa: BLE001
+        pass
+    return "exploration"
 
 
 def main():
@@ -34,7 +38,7 @@ def main():
         data = json.loads(Path(a.replay).read_text())
         rc = mod.replay(data) if hasattr(mod, "replay") else generic_replay(mod, data)
         sys.exit(rc)
-    rep = Report(pid, tier, LEVELS.get(pid, "exploration"))
+    rep = Report(pid, tier, manifest_level(pid))
     from harness.pool import Pool
 
     pool = Pool()
